@@ -311,3 +311,54 @@ pub unsafe extern "C" fn pthread_join(thread: libc::pthread_t, ret: *mut *mut li
     }
     f(thread, ret)
 }
+
+
+// ---------------------------------------------------------------------------
+// The machine-size seam
+// ---------------------------------------------------------------------------
+//
+// `std::thread::available_parallelism` (and anything built on it) asks the kernel for the calling
+// thread's CPU affinity mask through libc's `sched_getaffinity`. A tree that sizes a pool of its
+// own, a chunk length or a "small input" threshold from that number behaves differently on another
+// machine; on this one the number never changes, so no amount of scheduling would show it. The
+// executable's definition below passes the call through, except on threads that belong to a
+// simulation (the same mark as for the clock), which see the machine the current run was given:
+// 1 .. 256 CPUs, part of the run's plan and therefore of its replay file.
+
+static SIM_CPUS: std::sync::atomic::AtomicUsize = std::sync::atomic::AtomicUsize::new(0);
+static AFFINITY_READS: std::sync::atomic::AtomicU64 = std::sync::atomic::AtomicU64::new(0);
+
+/// Number of CPUs simulated threads see from now on (0 = the real machine).
+pub fn set_sim_cpus(n: usize) {
+    SIM_CPUS.store(n, std::sync::atomic::Ordering::SeqCst);
+}
+
+/// Affinity-mask reads made by simulated threads while a simulated machine size was set.
+pub fn affinity_reads() -> u64 {
+    AFFINITY_READS.load(std::sync::atomic::Ordering::Relaxed)
+}
+
+/// Interposed `sched_getaffinity` (see above).
+///
+/// # Safety
+/// Same contract as the C function: `mask` must be valid for `cpusetsize` bytes of writes.
+#[no_mangle]
+pub unsafe extern "C" fn sched_getaffinity(pid: libc::pid_t, cpusetsize: libc::size_t, mask: *mut libc::cpu_set_t) -> c_int {
+    let r = raw6(libc::SYS_sched_getaffinity, pid as usize, cpusetsize, mask as usize, 0, 0, 0);
+    if r < 0 || mask.is_null() {
+        return if r < 0 { -1 } else { 0 };
+    }
+    // the raw call returns the number of bytes it wrote; glibc's wrapper clears the rest
+    let bytes = mask as *mut u8;
+    let written = (r as usize).min(cpusetsize);
+    std::ptr::write_bytes(bytes.add(written), 0, cpusetsize - written);
+    let n = SIM_CPUS.load(std::sync::atomic::Ordering::SeqCst);
+    if n != 0 && crate::clock::thread_on_sim_time() {
+        AFFINITY_READS.fetch_add(1, std::sync::atomic::Ordering::Relaxed);
+        std::ptr::write_bytes(bytes, 0, cpusetsize);
+        for i in 0..n.min(cpusetsize * 8) {
+            *bytes.add(i / 8) |= 1 << (i % 8);
+        }
+    }
+    0
+}
